@@ -239,6 +239,30 @@ def run(tier, replay=None):
                     plans = [{'method': 'Worker.Read', 'ordinal': rng.choice([1, 1, 2]), 'phase': 'mid', 'bytes': b}]
                     steps = [kills_step([]), progs.step_run('r0', p0), kills_step(plans), progs.step_scan('r0'), kills_step([]), progs.step_scan('r0')]
                     tear.append(progs.scenario(100000 + len(tear) + 1, steps, exec_='bigmachine', interpose=True, loss=True, timeout_s=60, **rng.choice(cfgs)))
+            # torn shuffle reads: the machine serving a task's dependency dies after b bytes of the reply, when the
+            # consuming task (an aggregation over a shuffled input) has already processed part of its input
+            ntorn_scan = len(tear)
+            rr2 = random.Random(23)
+            rows48 = [[k, 1] for k in range(24) for _ in range(2)]
+            rr2.shuffle(rows48)
+            sprogs = [{'nodes': [progs.N('const', nshard=2, rows=rows48), progs.N('reshuffle', **{'in': [0]}), progs.N('reduce', **{'in': [1]}, f='sum')], 'out': 2, 'taps': []}]
+            while len(sprogs) < (5 if tier == 'quick' else 14):
+                g = progs.Gen(rng, mid=True)
+                j = g.source()
+                if g.nodes[j]['op'] == 'scanreader':
+                    continue
+                j = g.add(progs.N(rng.choice(['reshuffle', 'repartition', 'reduce', 'cogroup']), **{'in': [j]}, f='sum'), 'bag', g.nsh[j])
+                fin = rng.choice(['reduce', 'reduce', 'fold', 'cogroup'])
+                j = g.add(progs.N(fin, **{'in': [j]}, f=rng.choice(['sum', 'max']) if fin == 'reduce' else ''), 'bag', g.nsh[j])
+                sprogs.append({'nodes': g.nodes, 'out': j, 'taps': []})
+            for i, p0 in enumerate(sprogs):
+                for b in rng.sample(range(40, 420), (16 if i == 0 else 5) if tier == 'quick' else 100):
+                    plans = [{'method': 'Worker.Read', 'ordinal': rng.choice([1, 2, 3, 4]), 'phase': 'mid', 'bytes': b}]
+                    steps = [kills_step(plans), progs.step_run('r0', p0), kills_step([]), progs.step_scan('r0')]
+                    cfg = {'parallelism': rng.choice([2, 3]), 'machprocs': 1}
+                    tear.append(progs.scenario(100000 + len(tear) + 1, steps, exec_='bigmachine', interpose=True, loss=True, timeout_s=60, **cfg))
+            chk.cov['torn_scan_histories'] = ntorn_scan
+            chk.cov['torn_shuffle_read_histories'] = len(tear) - ntorn_scan
             chk.cov['torn_stream_histories'] = len(tear)
             base_n = len(base)
             recs2, path2 = progs.execute(w, scs[base_n:], workers=10 if tier == 'quick' else 24, tag='c02', timeout=6000, env={'VERIF_FASTBOOT': 1})
